@@ -26,6 +26,8 @@ Record ecase := {
   e_hmacfail : bool;       (* the wrapper is of a kind NewDerivedReader rejects: every HMAC fails *)
   e_payload : payload;
   e_unchanged : bool;      (* deep snapshot of the input event before Process = after Process *)
+  e_unaliased : bool;      (* after a forwarded event was rewritten from top to bottom (Formatted entries added / overwritten, every
+                              string, slice element, map entry and pointer target of its payload) the input still equals its snapshot *)
   e_snaponly : bool;       (* the configuration uses Filter.IgnoreTypes at positions where the rule applies (outside the model):
                               only the observation-only oracles on the INPUT (snapshot, panic, event metadata, type) are evaluated *)
   e_obs : obs;
@@ -46,6 +48,7 @@ Inductive kind :=
 | KMeta            (* event metadata changed *)
 | KCanary          (* protected canary text found in the JSON rendering of the output *)
 | KMutated         (* observation-only: the input event was modified *)
+| KAliased         (* observation-only: writing to the forwarded event changes the input event: they share data *)
 | KUnexp           (* observation-only: value of an unexported field not preserved (F10) *)
 | KSpecLeak        (* observation-only: the observed output is not clean (EncryptSpec.cleanb, the predicate of theorem no_leak) *)
 | KSpecShape.      (* observation-only: the observed output is not the private copy up to leaf contents (theorem shape_preserved) *)
@@ -295,8 +298,8 @@ Definition run_case (e : ecase) : list (N * kind) :=
      | ObPanic => [(0%N, KPanic)]
      | ObOut _ fl => (if of_sametype fl then [] else [(0%N, KType)]) ++ (if of_meta fl then [] else [(0%N, KMeta)])
      | _ => []
-     end) ++ (if e_unchanged e then [] else [(0%N, KMutated)])
-  else run_case_full e.
+     end) ++ (if e_unchanged e then [] else [(0%N, KMutated)]) ++ (if e_unaliased e then [] else [(0%N, KAliased)])
+  else run_case_full e ++ (if e_unaliased e then [] else [(0%N, KAliased)]).
 
 Definition mismatches (cs : list ecase) : list (N * (N * N * kind)) :=
   flat_map (fun e => map (fun m => (e_id e, (fst m, e_class e, snd m))) (run_case e)) cs.
